@@ -42,7 +42,7 @@ ASSUMPTIONS = [
 ]
 RULE = ("grammar-directed values (depth<=4, width<=4: scalars incl. int64 boundaries/big ints/±0.0/inf, str/bytes with "
         "separator characters, paths, list/tuple/set/frozenset/dict, plain/slots/attrs objects, numpy arrays and "
-        "scalars), paired with a one-step mutation (copy, retag, regroup, scalar type, scalar value, permute, array "
+        "scalars), paired with a one-step mutation (copy, retag, regroup, scalar type, scalar value, permute, array memory layout, array "
         "shape/dtype, drop, attribute/class name, alias) or made cyclic; each hashed alone, after its partner under a "
         "shared Cache, embedded in a list, and a sub-object after its parent; distinct = distinct value tree, "
         "non-trivial = tree with >= 3 nodes")
